@@ -118,6 +118,15 @@
 // circuit breaker wrapper. Silent: both refactorings done correctly (default applied in the multi
 // branch; sleep() returning bool or its error being replaced by the last attempt's error).
 //
+// Third robustness set (31 refactorings, all silent): a SetPayload argument collected in an
+// interface-typed local is judged by everything assigned to that local; an operand that reads the
+// receiver or a parameter of a helper (`len(blb.Servers)` in (*BaseLoadBalancer).serverByHash) is
+// judged in the callers with the helper interpreted in place (only when it is neither reviewed by
+// role nor provable where it stands); reviewed operands count distinct division sites; the
+// circuit breaker window's result counter is recognised by role (unsigned field incremented by
+// every Window.Push, divided by only below Window.FailureRate/SlowRate) when it moves into a
+// `counters` struct.
+//
 // Genuine defects found on today's tree (demo tests + fixes in /tmp/vw/C13/out): see final report.
 package rules
 
